@@ -149,4 +149,17 @@ theorem C20_ls_directory (paths : List Str) (d q : Str)
               (fun x => !(decide (toByteChars x = toByteChars d)) && ListView.childOf (toByteChars d) x)).map (· ++ ['/'])) :=
   ListView.list_directory paths d q hq hq0 hql hstar hnofile hdir
 
+/-! ### the report of `validate` at every verbosity -/
+
+/-- **an object with an error is reported at every verbosity** -/
+theorem C20_errors_always_printed (level : Level) (r : VResult) (h : r.errors ≠ []) : shouldPrint level r = true := by
+  cases hr : r.errors with
+  | nil => exact absurd hr h
+  | cons e es => simp [shouldPrint, hr]
+
+/-- a clean result is shown only at `info`, warnings only above `error` -/
+theorem C20_clean_result_printed_at_info_only (level : Level) (r : VResult) (he : r.errors = []) (hw : r.warnings = []) :
+    shouldPrint level r = decide (level = .info) := by
+  cases level <;> simp [shouldPrint, he, hw]
+
 end Rocfl.Cli
